@@ -8,6 +8,8 @@ import random
 from . import tlc
 from .common import NCPU, chunks
 
+MAX_BATCH = 24 * 1000 * 1000
+
 
 def _shard_job(args):
     (shard_no, items, recorder, rec_opts, run_dir, modules, trace_module, batch_name, wrap, timeout, specname) = args
@@ -19,24 +21,45 @@ def _shard_job(args):
     traces = rec(items, rec_opts)
     t1 = time.time()
     d = os.path.join(run_dir, 'shard%02d' % shard_no)
-    payload = wrap(traces) if wrap else traces
-    tlc.prepare(d, modules, {batch_name: json.dumps(payload)})
-    res = tlc.run(d, trace_module, 'SPECIFICATION %s\n' % specname, workers=1, timeout=timeout, heap='2g')
+    # bounded batches: a JSON batch above ~25 MB makes the JVM thrash (Gson tree + TLC values)
+    batches = []
+    cur, size = [], 0
+    for t in traces:
+        js = json.dumps(t, separators=(',', ':'))
+        if cur and size + len(js) > MAX_BATCH:
+            batches.append(cur)
+            cur, size = [], 0
+        cur.append(js)
+        size += len(js)
+    if cur or not batches:
+        batches.append(cur)
+    rej, summ = [], []
+    distinct = generated = 0
+    for b in batches:
+        body = '[' + ','.join(b) + ']'
+        if wrap:
+            head = json.dumps(wrap([]), separators=(',', ':'))
+            assert head.endswith('"traces":[]}')
+            body = head[:-3] + body + '}'
+        tlc.prepare(d, modules, {batch_name: body})
+        res = tlc.run(d, trace_module, 'SPECIFICATION %s\n' % specname, workers=1, timeout=timeout, heap='3g')
+        s1 = res.printed('SUMMARY')
+        if not s1:
+            raise tlc.TLCError('trace spec %s did not reach its end:\n%s' % (trace_module, res.out[-2500:]))
+        rej += res.printed('REJECT')
+        summ += s1
+        distinct += res.distinct
+        generated += res.generated
     t2 = time.time()
     if os.environ.get('VERIF_DEBUG'):
-        print('shard', shard_no, len(items), 'record %.1fs tlc %.1fs' % (t1 - t0, t2 - t1), flush=True)
-    rej = res.printed('REJECT')
-    summ = res.printed('SUMMARY')
-    if summ:
-        summ = [['SUMMARY', sum(x[1] for x in summ), sum(x[2] for x in summ)]]
-    if not summ:
-        raise tlc.TLCError('trace spec %s did not reach its end:\n%s' % (trace_module, res.out[-2500:]))
+        print('shard', shard_no, len(items), 'record %.1fs tlc %.1fs batches %d' % (t1 - t0, t2 - t1, len(batches)),
+              flush=True)
+    summ = [['SUMMARY', sum(x[1] for x in summ), sum(x[2] for x in summ)]]
     by_id = {t['id']: t for t in traces}
     rejected = []
     for r in rej:
         t = by_id.get(r[1])
         rejected.append({'reject': r, 'trace': _slim(t)})
-    steps = res.distinct
     rng = random.Random(shard_no)
     sample = _slim(rng.choice(traces)) if traces else None
     nontrivial = sum(1 for t in traces if t.get('nontrivial'))
@@ -46,7 +69,7 @@ def _shard_job(args):
     except OSError:
         pass
     return {'n': len(traces), 'accepted': summ[-1][1], 'rejected_n': summ[-1][2], 'rejected': rejected,
-            'states': res.distinct, 'generated': res.generated, 'sample': sample, 'nontrivial': nontrivial}
+            'states': distinct, 'generated': generated, 'sample': sample, 'nontrivial': nontrivial}
 
 
 def _slim(t):
